@@ -200,11 +200,17 @@ def degenerateCfg (cfg : Cfg) : Bool :=
 def hostClass (host : String) : String :=
   if startsWith host "[" then "host-ipv6" else ""
 
+/-- some Upgrade line names `websocket` as one token of a list (Upgrade is a list header) -/
+def upgradeListsWebsocket (w : List (String × Option String)) : Bool :=
+  (sent w "Upgrade").any fun v => (splitComma (s2l v)).any fun t => lowerL (trimBlanks t) == websocket
+
 def upgradeClass (w : List (String × Option String)) (tls : Bool) : String :=
   let u := sentFirst w "Upgrade"
+  let lines := if (sent w "Upgrade").length > 1 then "+lines" else ""
   if eqFold u "websocket" then
-    (if u == "websocket" then (if tls then "wss" else "ws") else (if tls then "wss-mixedcase" else "ws-mixedcase"))
-  else if tls then "tls" else "plain"
+    (if u == "websocket" then (if tls then "wss" else "ws") else (if tls then "wss-mixedcase" else "ws-mixedcase")) ++ lines
+  else (if tls then "tls" else "plain") ++
+    (if upgradeListsWebsocket w then "/upgrade-list" ++ lines else if u != "" then "/upgrade-other" ++ lines else "")
 
 def forgedCount (w : List (String × Option String)) (cfg : Cfg) : Nat :=
   (w.filter fun e =>
